@@ -167,6 +167,7 @@ def correspondence(ctx, recs, cmp_name, tag, chunk=120):
         ctx.corr_cases += len(terms)
         for b in bad:
             r = recs[idx[b]]
+            r.meta = dict(r.meta, mismatch=True)       # the search for a failing input looks at these first (mismatch_first)
             ctx.corr_break("model and implementation differ on %s (%s)" % (cmp_name if op == "solve" else "reachability run", r.describe()),
                            r.inp(), impl=str(r.out)[:1500] if r.ok else r.res)
         for e in errs:
@@ -423,3 +424,8 @@ def late_edit_check(ctx, recs, fields, count, tag):
                 ctx.violation("final state %d appended after the StochasticGame was built: %s comes out as %r; built from the "
                               "edited description: %r" % (extras[k], f, x, y), inp)
                 break
+
+
+def mismatch_first(recs):
+    """where model and implementation disagree is where a failing input is most likely: budgeted oracles go there first"""
+    return sorted(recs, key=lambda r: 0 if r.meta.get("mismatch") else 1)
